@@ -27,6 +27,7 @@ Definition decode1 (x : N) : list obs :=
   | 13 => [PeerRunning id]
   | 16 => [ObsBegin id]
   | 17 => [RecvLoopRunning id]
+  | 18 => [SendEnter id] | 19 => [SendExit id]
   | 14 => [InvPeerCfg id] | 15 => [RetPeerCfg id]
   | _ => []
   end.
@@ -41,7 +42,7 @@ Definition mk (l : list Uint63.int) : case := {| c_trace := flat_map (fun x => d
             (case, kind, 1000 * clause + position capped) *)
 Definition check_case (k : case) : list (N * N) :=
   let v := monitor mon0 (c_trace k) 0 in
-  map (fun p => if fst p =? 5 then (1, 1000000 * 5 + snd p)
+  map (fun p => if (fst p =? 5) || (fst p =? 9) then (1, 1000000 * fst p + snd p)
                 else if fst p =? 6 then (3, 1000000 * 6 + snd p)      (* kind 3 = informational only *)
                 else (2, 1000000 * fst p + snd p)) v.
 
